@@ -994,6 +994,26 @@ def _component_assign(lp_body):
     return None
 
 
+def _component_comp(fn):
+    """the comprehension spelling of the component loop: `{name: getattr(self, name) <op> <arg> for name in DIMENSION_LIST}`
+    handed to Dimensions(**...) directly or through one local -> (op, arg) or None"""
+    body = K.body_nodoc(fn)
+    comps = [c for c in ast.walk(fn) if isinstance(c, ast.DictComp) and len(c.generators) == 1 and norm(c.generators[0].iter) == "DIMENSION_LIST"
+             and not c.generators[0].ifs and isinstance(c.generators[0].target, ast.Name)]
+    if len(comps) != 1 or not body or not isinstance(body[-1], ast.Return):
+        return None
+    c = comps[0]
+    v = c.generators[0].target.id
+    ret = norm(body[-1].value)
+    direct = ret == f"Dimensions(**{norm(c)})"
+    via = [a for a in body if isinstance(a, ast.Assign) and a.value is c and isinstance(a.targets[0], ast.Name)]
+    if not direct and not (len(via) == 1 and ret == f"Dimensions(**{via[0].targets[0].id})"):
+        return None
+    if norm(c.key) == v and isinstance(c.value, ast.BinOp) and norm(c.value.left) == f"getattr(self, {v})" and type(c.value.op) in OPSYM:
+        return OPSYM[type(c.value.op)], norm(c.value.right)
+    return None
+
+
 def r9_dimensions(ctx):
     G = "getattr(self, name)"
     for m, op in (("__add__", "+"), ("__sub__", "-")):
@@ -1012,6 +1032,10 @@ def r9_dimensions(ctx):
         lp = _dim_loop(fn)
         c = _component_assign(lp.body) if lp is not None else None
         if c is None or norm(K.body_nodoc(fn)[-1]) != "return Dimensions(**dimensions)":
+            c = _component_comp(fn)
+            if c is not None:
+                ctx.check(c == (op, arg), DM, f"Dimensions.{m}", f"every component {op} {arg}", detail=c, expected=(op, arg))
+                continue
             ctx.unrecognised(DM, f"Dimensions.{m}", "component loop", "loop over DIMENSION_LIST not recognised")
             continue
         ctx.check(c == (op, arg), DM, f"Dimensions.{m}", f"every component {op} {arg}", detail=c, expected=(op, arg))
